@@ -111,6 +111,20 @@ def main():
                     res["watchdog"]["shape"] = "live-workers-starved"
             except Exception as e:
                 res["watchdog"]["inspect_error"] = repr(e)
+        if res["status"] != "deadlock" and all_dead and loader_alive and not main_in_get:
+            # third deadlock shape: no worker is left to consume, the loader thread is blocked putting into the full input
+            # queue and the caller is blocked waiting for the loader thread (join) -- nobody can ever drain the queue
+            try:
+                lt = [t for t in threading.enumerate() if type(t).__name__ == "ThreadLine" and t.is_alive()]
+                lst = stack(lt[0].ident) if lt else []
+                loader_in_put = any(fn == "queues.py" and name == "put" for fn, name, _ in lst)
+                main_in_join = any(fn == "threading.py" and name in ("join", "_wait_for_tstate_lock") for fn, name, _ in mst)
+                n_cb = sum(1 for _, alive, kind in threads if kind == "join_and_call" and alive)
+                res["watchdog"].update({"loader_blocked_in_put": loader_in_put, "main_blocked_in_join": main_in_join})
+                if loader_in_put and main_in_join and n_cb <= 1:
+                    res["status"] = "deadlock"; res["watchdog"]["shape"] = "loader-blocked-on-full-queue-while-caller-joins-it"
+            except Exception as e:
+                res["watchdog"]["inspect_error3"] = repr(e)
         res["events"] = [list(e) for e in comp.LINEAGE_LOG]
         finish(0)
     mp_obj = {}
@@ -120,6 +134,8 @@ def main():
         rngc = random.Random(spec["perturb_seed"] + 17)
         filt = comp.C08Filter(spec["mode"], {int(k): v for k, v in spec["kmap"].items()}, spec["raising"], spec["side"],
                               spec["perturb_seed"], spec["worker_jitter_ms"], spec.get("exc_type", "ValueError"))
+        filt.none_uid = (spec.get("none_items") or [None])[0]
+        none_at = set(spec.get("none_items") or [])       # None is a legal ITEM (only queue payloads use None as the pill)
         def source():
             for uid in range(spec["n_items"]):
                 if spec["loader_jitter_ms"] and rngc.random() < .5: time.sleep(rngc.random() * spec["loader_jitter_ms"] / 1000.0)
@@ -130,7 +146,7 @@ def main():
                     while time.time() < t_end and not any(e[0] == "start" and e[1] >= spec["n"] for e in list(comp.LINEAGE_LOG)): time.sleep(.005)
                     time.sleep(.05)
                 res["events"].append(("loaded", uid))
-                yield (uid, "p" * (uid % 7))
+                yield None if uid in none_at else (uid, "p" * (uid % 7))
         if spec["via"] == "coba":
             from coba.multiprocessing import CobaMultiprocessor
             from coba.context import CobaContext, NullLogger
